@@ -832,6 +832,18 @@ def h_result_map_err(ex, st, frame, t, nf, args, dty):
     return ("states", outs)
 
 
+def h_int_add_ref(ex, st, frame, t, nf, args, dty):
+    """<uN as Add<&uN>>::add / <&uN as Add<uN>>::add ...: integer addition through the operator trait on references;
+    overflow panics (the std impls forward to `+`, overflow-checks on)"""
+    a = deref_val(ex, st, args[0])
+    b = deref_val(ex, st, args[1])
+    if not (isinstance(a, Sym) and isinstance(b, Sym)):
+        raise Unsupported("Add on non-integers")
+    w = a.t.size()
+    ovf = z3.ULT(a.t + b.t, a.t)
+    return [(Sym(a.t + b.t, a.ty), z3.Not(ovf)), (("panic", "attempt to add with overflow"), ovf)]
+
+
 def h_result_and(ex, st, frame, t, nf, args, dty):
     """Result::and(self, res): res if self is Ok, else self's error"""
     a, b = args[0], args[1]
@@ -1781,6 +1793,7 @@ STD_SUMMARIES = [
     (r"^<(std::result::)?Result as (anyhow::)?Context<.*>>::(with_context|context)$", h_err_map_keep),
     (r"^(std::option::)?Option::ok_or_else$", h_ok_or_else),
     (r"^(std::result::)?Result(::<.*>)?::and$", h_result_and),
+    (r"^<&?(u8|u16|u32|u64|usize) as (std::ops::)?Add<&?(u8|u16|u32|u64|usize)>>::add$", h_int_add_ref),
     (r"^(futures::future::|futures_util::future::)?maybe_done$", h_maybe_done),
     (r"^(futures::future::|futures_util::future::)?poll_fn$", h_poll_fn),
     (r"^(futures::future::|futures_util::future::)?MaybeDone(::<.*>)?::take_output$", h_maybe_done_take),
